@@ -8,6 +8,7 @@ CONSTANTS
   AvailSet <- AFew
   IndSet = {2}
   AlignMode = 1
+  DupMode = FALSE
   Pool <- PoolTiny
 INVARIANT TypeOK
 INVARIANT InvSucceeds
